@@ -368,6 +368,66 @@ def beta_divisions_guarded(ctx, rule='division-by-beta-guarded'):
         raise AnalysisBroken('only %d divisions by beta analysed' % n)
 
 
+def norm_divisions_guarded(ctx, rule='division-by-norm-guarded'):
+    """A vector is normalised by dividing it by its norm.  When the vector can be exactly zero for an input the properties name
+    (A v0 = 0: the zero matrix, a nilpotent or rank-deficient matrix with the start vector in its null space) the division is
+    0/0 and every later quantity is NaN: the user's operator is applied to NaN vectors and the run ends in an internal
+    "decomposition failed" exception.  Every division by a local that holds a norm must be unreachable when that norm is below the
+    class's zero threshold: dominated by a test of it whose small branch leaves or takes another way."""
+    n = 0
+    seen = set()
+    for fn in ctx.F.concrete():
+        if fn.cls not in FAC or not fn.cfg or fn.d.get('ctor') or (fn.cls, fn.name) in seen:
+            continue
+        norms = {}
+        for x in fn.walk():
+            if x['k'] == 'DeclStmt':
+                for d in x['decls']:
+                    if 'init' in d and 'var' in d:
+                        t = sym(fn, d['init'], inline=False)
+                        if isinstance(t, tuple) and t[0] in ('norm', 'stableNorm', 'blueNorm') or (isinstance(t, tuple) and t[0] == 'call' and t[1] == 'norm'):
+                            norms[d['var']] = (fn.locals[d['var']]['name'], show(t))
+        for x in fn.walk():
+            if not (x['k'] in ('CXXOperatorCallExpr', 'BinaryOperator', 'CompoundAssignOperator') and x.get('op') in ('/', '/=')):
+                continue
+            ops = fn.call_args(x) if x['k'] == 'CXXOperatorCallExpr' else [fn.nodes[c] for c in x['c']]
+            r = fn.strip(ops[-1])
+            if r is None or r['k'] != 'DeclRefExpr' or r.get('var') not in norms:
+                continue
+            seen.add((fn.cls, fn.name))
+            n += 1
+            nm, what = norms[r['var']]
+            # tests  nm < threshold  (threshold: the class's near-zero field or a literal)
+            tests = []
+            for i in fn.walk():
+                if i['k'] == 'IfStmt':
+                    c = sym(fn, i['cond'], inline=False)
+                    if c[0] in ('<', '<=') and c[1] == ('L', nm):
+                        tests.append((i, True))          # true branch = small
+                    elif c[0] in ('<', '<=') and c[2] == ('L', nm) and c[0] == '<':
+                        tests.append((i, False))         # true branch = large
+                    elif c[0] == '==' and ('L', nm) in c[1:] and ('lit', '0') in c[1:]:
+                        tests.append((i, True))
+            ok = False
+            for i, small_is_then in tests:
+                small = i['then'] if small_is_then else i.get('else', -1)
+                large = i.get('else', -1) if small_is_then else i['then']
+                if large is not None and large >= 0 and fn.within(x, large):
+                    ok = True
+                elif small is not None and small >= 0 and not fn.within(x, small):
+                    # the small branch must not fall through to the division
+                    kids = fn.kids(fn.nodes[small]) if fn.nodes[small]['k'] == 'CompoundStmt' else [fn.nodes[small]]
+                    leaves = bool(kids) and (kids[-1]['k'] in ('ReturnStmt',) or any(y['k'] == 'CXXThrowExpr' for y in fn.walk(kids[-1])))
+                    if leaves and paths.dominated_by(fn, fn.pos_of(x), lambda n_, i=i: fn.within(n_, i['cond'])):
+                        ok = True
+            ctx.check(ok, rule, '%s::%s/%s' % (fn.cls.replace('Spectra::', ''), fn.name, nm), fn.qname,
+                      '`%s` is reached only when %s is not below the zero threshold' % (fn.s(x)[:30], nm) if ok else
+                      '`%s` divides by %s = %s with no test of it: when that vector is exactly zero (the operator maps the start vector to zero: zero matrix, nilpotent or rank-deficient '
+                      'matrix) this is 0/0, every later quantity is NaN, the operator is applied to NaN vectors and the run ends in an internal exception' % (fn.s(x)[:30], nm, what))
+    if n < 1:
+        raise AnalysisBroken('no division by a local norm found in the factorization classes (Arnoldi::init confirmed)')
+
+
 def beta_tracks_residual(ctx, rule='residual-norm-tracks-residual'):
     """m_beta is the cached norm of the residual vector m_fac_f; every consumer (breakdown test, normalisation, sub-diagonal
     entry, the solver's convergence test) reads the cache.  Pairing rule over every member of the factorization: after each
